@@ -32,27 +32,48 @@ def search(template, np_, goal, timeout=300):
     return None
 
 
-def generate(path=WITNESS, procs=8, per_goal=2):
-    """greedy: a witness found for one goal usually covers several (its cov set); goals already covered for a parity
-    count are not searched again"""
-    found = {}
+def _search_retry(t, n, g):
+    for attempt in (1, 2, 3):
+        try:
+            return search(t, n, g)
+        except vlib.ToolFailure:
+            if attempt == 3:
+                raise
+            import time
+            time.sleep(20)       # e.g. the specification was being edited
+
+
+def generate(path=WITNESS, procs=6, per_goal=2):
+    """greedy and resumable: a witness found for one goal usually covers several (its cov set); goals already covered
+    for a parity count are not searched again; the file is rewritten after every goal"""
+    found = load(path)
+    done = set(found.get("_done", []))
     covered = {1: {}, 2: {}}
+    for k, ws in found.items():
+        if k == "_done":
+            continue
+        for w in ws:
+            for c in w["cov"]:
+                covered[w["np"]][c] = covered[w["np"]].get(c, 0) + 1
+    os.makedirs(os.path.dirname(path), exist_ok=True)
     with ThreadPoolExecutor(procs) as ex:
         for n in (1, 2):
             for g in GOALS:
-                if covered[n].get(g, 0) >= per_goal:
+                key = "%s/np%d" % (g, n)
+                if key in done or covered[n].get(g, 0) >= per_goal:
                     continue
-                ws = [w for w in ex.map(lambda t: search(t, n, g), TEMPLATES) if w]
-                # keep the shortest histories
+                ws = [w for w in ex.map(lambda t: _search_retry(t, n, g), TEMPLATES) if w]
                 ws.sort(key=lambda w: len(w["actions"]))
                 for w in ws[:per_goal]:
-                    found.setdefault("%s/np%d" % (g, n), []).append(w)
+                    found.setdefault(key, []).append(w)
                     for c in w["cov"]:
                         covered[n][c] = covered[n].get(c, 0) + 1
+                done.add(key)
+                found["_done"] = sorted(done)
+                with open(path + ".tmp", "w") as f:
+                    json.dump(found, f, indent=0, sort_keys=True)
+                os.replace(path + ".tmp", path)
                 print("np=%d goal=%s: %d templates reach it" % (n, g, len(ws)), flush=True)
-    os.makedirs(os.path.dirname(path), exist_ok=True)
-    with open(path, "w") as f:
-        json.dump(found, f, indent=0, sort_keys=True)
     return found
 
 
@@ -127,5 +148,6 @@ if __name__ == "__main__":
     os.makedirs(os.path.join(vlib.OUT, "md"), exist_ok=True)
     f = generate()
     for k in sorted(f):
-        print(k, [w["template"] for w in f[k]])
-    print(len(f), "goal/np combinations with witnesses;", sum(len(v) for v in f.values()), "histories")
+        if k != "_done":
+            print(k, [w["template"] for w in f[k]])
+    print(len(f) - 1, "goal/np combinations with witnesses;", sum(len(v) for k, v in f.items() if k != "_done"), "histories")
